@@ -8,7 +8,7 @@ import typing as t
 from vf.gen import values as gv
 
 KINDS = ["oc", "at", "dcr"]
-SPECIAL_TEXT = ["'", "\\", "|", "$", "(", ")", "{", "}", " ", "  ", "\n", "\\27", "\\5c", "\\5C", "\\7c", "\U0001f600", "é", "'(", ")'", " X-A 'b'", "#", "\t"]
+SPECIAL_TEXT = ["\x00", "'", "\\", "|", "$", "(", ")", "{", "}", " ", "  ", "\n", "\\27", "\\5c", "\\5C", "\\7c", "\U0001f600", "é", "'(", ")'", " X-A 'b'", "#", "\t"]
 
 
 def g_dtext(r: random.Random) -> str:
@@ -26,7 +26,7 @@ def g_dtext(r: random.Random) -> str:
         elif y < 0.8:
             out.append(r.choice("abcXYZ 09.,;:-_"))
         else:
-            out.append(r.choice(gv.TEXT_ALPHABET.replace("\x00", "a")))
+            out.append(r.choice(gv.TEXT_ALPHABET))
     s = "".join(out)
     return s or "x"
 
